@@ -73,6 +73,12 @@ func (cx *Ctx) runOp(rule string, spec opSpec) *opRun {
 		return nil
 	}
 	ps := newPathSum(cx)
+	if spec.kind == "bulkGet" || spec.kind == "bulkRefresh" {
+		// four to five consecutive loops over symbolic collections: with two iterations each the product of paths
+		// exceeds the enumeration bound (30000 after 2.4 M steps); these operations keep one iteration per loop in
+		// the thorough tier as well
+		ps.loopBound = 1
+	}
 	for k, kind := range spec.events {
 		parts := strings.Split(k, ".")
 		if f := cx.P.Func("", parts[0], parts[1]); f != nil {
